@@ -2,6 +2,8 @@ import Props.Skeleton
 import Lemmas.SkelChain
 import Lemmas.EngineChain
 import Lemmas.SkelAck
+import Lemmas.SkelFloor
+import Lemmas.EngineFloorStep
 import Model.Engine.SkelExec
 /-! SkeletonRef — the regenerated skeleton, INTERPRETED, refines the component machines: statements for ALL schedules.
 
@@ -95,6 +97,70 @@ theorem acknowledged_is_persisted_every_schedule (dry : Nat → Bool) (store : L
   refine ⟨s, hs, fun x hx => ?_, hi.clean⟩
   have := hi.acked x hx
   exact ⟨hd ▸ this.1, this.2.2⟩
+
+-- ------------------------------------------------------------------------------------------------ Floor (C02)
+
+/-- every path of the generated skeleton has the order of steps `Floor` needs (`SkelAutoFloor`) -/
+theorem floor_shape_generated :
+    entryPoints.all (fun e => (paths e.1 e.2).all (fun p => (FloorRef.frun (AckRef.isTxKind (epKind e.1)) {} (tagged p)).isSome)) = true := by
+  decide +kernel
+
+/-- … and the automaton is not trivially accepting: unlocking between the append and the wait is refused, and so is
+running the script's commit without having read the balances -/
+example : (FloorRef.frun true {} [.act .lock .ok .direct, .act .readBalances .ok .direct, .act (.append "chained" ["c"]) .ok .direct,
+    .act .unlock .ok .terminated, .act (.wait "persisted") .ok .direct]).isSome = false := by decide
+example : (FloorRef.frun true {} [.act .lock .ok .direct, .act (.append "chained" ["c"]) .ok .direct]).isSome = false := by decide
+
+/-- a request as `Floor` sees it: a path of its entry point, a write of that entry point's kind, and a script result
+that stays inside its lock sets and respects the floor against the balances it read (`FloorRef.JobOk`: what §3.4
+takes from the Numscript side — C01 proves the floor for `Spec`, the differentials tie `Spec` to the VM) -/
+def AdmittedF (grant : Nat → Option Int) (j : Sys.Job) (p : Path) : Prop :=
+  Admitted j p ∧ j.req.kind = epKind j.ep ∧ FloorRef.JobOk grant j
+
+theorem admitted_floor_shape (grant : Nat → Option Int) (j : Sys.Job) (p : Path) (h : AdmittedF grant j p) :
+    (FloorRef.frun j.isTx {} p).isSome = true ∧ FloorRef.JobOk grant j := by
+  obtain ⟨⟨e, he, hej, p0, hp0, rfl⟩, hk, hj⟩ := h
+  refine ⟨?_, hj⟩
+  have h1 := List.all_eq_true.1 floor_shape_generated e he
+  have h2 := List.all_eq_true.1 h1 p0 hp0
+  have : j.isTx = AckRef.isTxKind (epKind e.1) := by
+    unfold Sys.Job.isTx AckRef.isTxKind
+    rw [hk, ← hej]
+  rw [this]
+  exact h2
+
+/-- **C02 for every schedule of the regenerated skeleton** (interleaving at every action).  Whatever the interleaving
+of the requests' actions, the lock grants (the contract of C15: write excludes read and write, FIFO recheck at every
+release), the batch boundaries, the store failures and the crashes: the trace is accepted by the `Floor` machine —
+balances are read only under a lock covering the account and are the replay of the persisted log, a commit happens
+under the lock after the read, the lock is not released while the log is queued — given, for every request, that its
+script's result stays inside its lock sets and respects the floor against the balances read. -/
+theorem floor_accepts_every_schedule (grant : Nat → Option Int) (store : List LogE)
+    (tr : List Ev) (st : Sys.State) (h : Sys.Run (AdmittedF grant) (Sys.init store) tr st) :
+    ∃ s, runOn (Floor.step grant) (Floor.init store) tr = .ok s ∧ s.durable.map (·.log) = st.sh.store ∧
+      s.pending.map (fun e => (e.by_, e.log)) = st.sh.queue ∧ s.holders = st.sh.holders ∧ s.queue = st.sh.lqueue := by
+  obtain ⟨s, hs, hi⟩ := FloorRef.run_refines grant (AdmittedF grant) (admitted_floor_shape grant) _ _ _ h _ (FloorRef.init_inv grant store)
+  exact ⟨s, hs, hi.dur, hi.pend, hi.hold, hi.que⟩
+
+/-- … hence (with C02's invariant) in every reachable state of the interpreted skeleton every entry added since the
+start — persisted or queued — respects the floor, at its position, against the replay of the entries before it: no
+interleaving lets two requests spend the same funds -/
+theorem log_floor_every_schedule (grant : Nat → Option Int) (store : List LogE)
+    (tr : List Ev) (st : Sys.State) (h : Sys.Run (AdmittedF grant) (Sys.init store) tr st) :
+    ∃ s, runOn (Floor.step grant) (Floor.init store) tr = .ok s ∧ s.durable.map (·.log) = st.sh.store ∧
+      Floor.floorAt grant (s.durable.take store.length) ((s.durable ++ s.pending).drop store.length) := by
+  obtain ⟨s, hs, hd, _⟩ := floor_accepts_every_schedule grant store tr st h
+  have hi := runOn_inv (Floor.step grant) (Floor.Inv grant (store.map (fun l => ⟨l, 0⟩))) (fun s e s' => Floor.step_inv s e s') tr _ s
+    (Floor.init_inv grant store) hs
+  obtain ⟨added, hdu, hfl⟩ := hi.floor
+  refine ⟨s, hs, hd, ?_⟩
+  have hlen : (store.map (fun l => (⟨l, 0⟩ : Floor.Entry))).length = store.length := by simp
+  have h1 : s.durable.take store.length = store.map (fun l => ⟨l, 0⟩) := by
+    rw [hdu, ← hlen, List.take_left']; rfl
+  have h2 : (s.durable ++ s.pending).drop store.length = added ++ s.pending := by
+    rw [hdu, List.append_assoc, ← hlen, List.drop_left']; rfl
+  rw [h1, h2]
+  exact hfl
 
 -- ------------------------------------------------------------------------------------------------ non-vacuity
 
